@@ -274,6 +274,14 @@ def judge_c06(prop, spec_name, ch, case, which, res):
                                            dict(structure=describe(val), value=repr(val)[:300]), dict(structure=describe(ref), value=repr(ref)[:300])))
         else:
             counts["same-" + where] += 1
+    # aliasing: where NumPy hands back fresh memory (e.g. np.array(a) copies), the result under autograd must not alias an input either -
+    # otherwise a later in-place update of the result modifies the caller's input
+    inputs = [v for v in case.ops.values() if isinstance(v, onp.ndarray) and v.size]
+    if isinstance(ref, onp.ndarray) and ref.size and inputs and not any(onp.shares_memory(ref, v) for v in inputs):
+        for where, val in list(obs.items()):
+            if isinstance(val, onp.ndarray) and any(onp.shares_memory(val, v) for v in inputs):
+                counts["aliases-input"] += 1
+                out["v"].append(W.mk_violation(prop, spec_name, ch, case, which, where, "result-aliases-input", "shares memory with an input", "fresh memory (as NumPy)"))
     if not res["inputs_unchanged"]:
         counts["input-modified"] += 1
         out["v"].append(W.mk_violation(prop, spec_name, ch, case, which, "any", "input-modified", None, None))
